@@ -33,11 +33,11 @@ inline GenCfg profile_cfg(int profile, Rng& rng, bool faults) {
   w[OP_NEW_MOCK] = 4; w[OP_DESTROY_MOCK] = 2; w[OP_MOVE_MOCK] = 2; w[OP_NEW_SEQ] = 2; w[OP_MOVE_SEQ] = 1; w[OP_DESTROY_SEQ] = 1;
   w[OP_EXPECT] = 22; w[OP_RELEASE] = 6; w[OP_ABANDON] = 1; w[OP_CALL] = 40; w[OP_Q_COMPLETED] = 1;
   w[OP_NEW_WATCHED] = 1; w[OP_DESTROY_WATCHED] = 1; w[OP_COPY_WATCHED] = 0; w[OP_MOVECONS_WATCHED] = 0; w[OP_ASSIGN_WATCHED] = 0;
-  w[OP_REQ_DESTRUCTION] = 1; w[OP_RELEASE_MON] = 1; w[OP_PUSH_TRACER] = 1; w[OP_POP_TRACER] = 1; w[OP_SET_REPORTER] = 1; w[OP_MUTATE] = 2; w[OP_WIDE] = 1;
+  w[OP_REQ_DESTRUCTION] = 1; w[OP_RELEASE_MON] = 1; w[OP_PUSH_TRACER] = 1; w[OP_POP_TRACER] = 1; w[OP_SET_REPORTER] = 1; w[OP_MUTATE] = 2; w[OP_WIDE] = 1; w[OP_END_SCOPE] = 3;
   c.nested_pct = 14; c.fault_pct = 10;
   switch (profile) {
     case PF_BOUNDS: w[OP_CALL] = 60; w[OP_EXPECT] = 20; c.inverted_pct = 6; break;
-    case PF_LIFETIME: w[OP_RELEASE] = 14; w[OP_DESTROY_MOCK] = 8; w[OP_MOVE_MOCK] = 6; w[OP_ABANDON] = 3; w[OP_NEW_MOCK] = 8; break;
+    case PF_LIFETIME: w[OP_END_SCOPE] = 8; w[OP_RELEASE] = 14; w[OP_DESTROY_MOCK] = 8; w[OP_MOVE_MOCK] = 6; w[OP_ABANDON] = 3; w[OP_NEW_MOCK] = 8; break;
     case PF_SEQ: w[OP_NEW_SEQ] = 4; w[OP_DESTROY_SEQ] = 2; w[OP_Q_COMPLETED] = 3; w[OP_REQ_DESTRUCTION] = 4; w[OP_NEW_WATCHED] = 3; w[OP_DESTROY_WATCHED] = 4; w[OP_RELEASE] = 8; break;
     case PF_FORBID: w[OP_RELEASE] = 10; break;
     case PF_CLAUSES: c.nested_pct = 35; c.fault_pct = 25; w[OP_MUTATE] = 10; w[OP_WIDE] = 8; break;
@@ -88,6 +88,7 @@ class Generator {
     nfocus_ = rng_.range(1, 3);
     for (int i = 0; i < nfocus_; ++i) focus_[i] = pick_fn();
     focus_mock_ = rng_.below(8);
+    scoped_pct_ = rng_.chance(1, 3) ? 0 : (profile_ == PF_LIFETIME ? 45 : 25);
     p.tasks.resize(1);
     auto& ops = p.tasks[0];
     // a little population first
@@ -116,6 +117,7 @@ class Generator {
   int focus_[3] = {0, 0, 0};
   int nfocus_ = 1;
   int focus_mock_ = 0;
+  int scoped_pct_ = 0;
 
   static Op mk(int kind, int a0 = 0, int a1 = 0) { Op o; o.kind = kind; o.a[0] = a0; o.a[1] = a1; return o; }
   void emit(std::vector<Op>& ops, const Op& o) { ops.push_back(o); shadow_.step_shadow(o); }
@@ -142,6 +144,7 @@ class Generator {
     if (rng_.below(100) < cfg_.inverted_pct) { lo = rng_.range(1, 4); hi = rng_.below(lo); }
     o.a[5] = lo; o.a[6] = hi > 4 ? 4 : hi;
     o.a[7] = rng_.below(8); o.a[8] = rng_.below(2); o.a[9] = rng_.below(4);
+    if (scoped_pct_ && rng_.below(100) < scoped_pct_) o.a[8] |= 2;   // the scoped macro form (top-level operations only)
     return o;
   }
 
@@ -205,7 +208,9 @@ class Generator {
                                 OP_DESTROY_SEQ, OP_REQ_DESTRUCTION, OP_DESTROY_WATCHED, OP_RELEASE_MON, OP_NEW_MOCK, OP_MOVE_MOCK};
     int k = kinds[rng_.below(static_cast<int>(sizeof kinds / sizeof kinds[0]))];
     if (cfg_.w[k] == 0 && k != OP_CALL) k = OP_CALL;
-    return gen_kind(k, depth);
+    Op o = gen_kind(k, depth);
+    if (o.kind == OP_EXPECT) o.a[8] &= 1;
+    return o;
   }
 
   Op gen_kind(int k, int depth) {
